@@ -149,7 +149,7 @@ Proof.
       * intros -> k. rewrite forallb_forall in H0.
         destruct (in_dec N.eq_dec k (keys r ++ all_keys_of L)) as [Hin|Hni]; [apply Z.eqb_eq; apply H0; assumption|].
         rewrite in_app_iff in Hni. rewrite getz_not_key, asum_not_key by tauto. reflexivity.
-    + intros p0 a0 r0 u0 E. injection E as <- <- <- <- <-. apply rangeb_range. assumption.
+    + intros p0 a0 r0 u0 E. injection E as Ep Ea Er Eu Erm. subst. apply rangeb_range. assumption.
   - intros H. split; [|intros; discriminate]. destruct p as [|x t]; [discriminate|]. eauto.
   - intros H. split; [|intros; discriminate]. destruct p as [|x t]; [discriminate|]. eauto.
 Qed.
